@@ -6,7 +6,8 @@ package c09
 //   op line   : tx <gasLimit> <intrinsic> <program with the gas costs measured by a tracer on an ample-gas run>
 //   impl line : <status> gas=<gas used by the root frame (traced run at the same limit)> markers=<surviving SSTORE markers
 //               read from contract storage> kept=<precompile calls whose frame and all enclosing frames returned
-//               normally> logs=<number of precompile logs in the receipt> ref=<same|diff>
+//               normally> frames=<CALL-family frames of generated contracts that returned normally together with all
+//               their enclosing frames (journal level: what the StateDB kept of each frame)> logs=<number of precompile logs in the receipt> ref=<same|diff>
 //               where ref compares every Cosmos module store (and the ERC-20 token storage) after the real run with a
 //               REFERENCE run (ample gas) of the program pruned to exactly the kept frames — "surviving effects = those
 //               of calls all of whose enclosing frames returned normally", checked byte for byte on bank, staking,
@@ -290,6 +291,7 @@ type runObs struct {
 	vmErr   string
 	markers []int
 	kept    []int
+	frames  []int // call nodes (frames of generated contracts) that returned normally together with every enclosing frame
 	dump    map[string]string
 	logs    string
 	nPreLog int
@@ -497,12 +499,20 @@ func (e *env) runWith(pctx sdk.Context, p *program, gasLimit uint64, traced bool
 	}
 	if o.tr != nil {
 		fn := frameNodes(p, o.tr)
+		tok := map[int]bool{} // the frame precompile -> hook token is the native action's own EVM call, not a CALL node of a program
+		for _, in := range p.inner {
+			tok[in.tokNode.ID] = true
+		}
 		for i, n := range fn {
 			if n.Op == "pre" && o.tr.Kept(i) {
 				o.kept = append(o.kept, n.ID)
 			}
+			if n.Op == "call" && !tok[n.ID] && o.tr.Kept(i) {
+				o.frames = append(o.frames, n.ID)
+			}
 		}
 		sort.Ints(o.kept)
+		sort.Ints(o.frames)
 	}
 	o.dump = e.dumpCosmos(cctx)
 	return o
@@ -946,7 +956,8 @@ func TestC09(t *testing.T) {
 			if len(trc.tr.Frames) > 0 {
 				rootUsed = trc.tr.Frames[0].GasUsed
 			}
-			obs = fmt.Sprintf("%s gas=%d markers=%s kept=%s logs=%d ref=%s", real.status, rootUsed, ints(real.markers), ints(trc.kept), real.nPreLog, strings.SplitN(refs, ":", 2)[0])
+			obs = fmt.Sprintf("%s gas=%d markers=%s kept=%s frames=%s logs=%d ref=%s", real.status, rootUsed, ints(real.markers), ints(trc.kept), ints(trc.frames), real.nPreLog, strings.SplitN(refs, ":", 2)[0])
+			out.Count(fmt.Sprintf("kept-call-frames:%d", len(trc.frames)))
 			out.Emit(fmt.Sprintf("%s %d %d %s", opw, g, intrinsic, text), obs)
 			if p.direct {
 				out.Count("direct-call:" + p.meta[p.root[0].ID].variant + ":" + real.status)
